@@ -327,6 +327,46 @@ def run(repo: Repo, chk: Check, thorough: bool = False) -> None:
     # ------------------------------------------------------------------ R15.6 control characters keep their value
     check_control_escape(repo, chk, 'R15.6')
 
+    # docutils uses NUL as its internal escape marker: nodes.Text.astext() / nodes.unescape() delete every \x00 from the text, so a NUL
+    # that reaches a Text node never arrives at html2stan (which would write it as \x00).  The string escaper has to spell it out itself.
+    se = repo.func('pydoctor.epydoc.markup._pyval_repr._str_escape')
+    handled = {}
+    for g in [se] + [h for h in repo.funcs.values() if h.qn.startswith(se.qn + '.')]:
+        for n in g.walk():
+            if isinstance(n, ast.If) and isinstance(n.test, ast.Compare) and len(n.test.comparators) == 1 and \
+                    isinstance(n.test.comparators[0], ast.Constant) and isinstance(n.test.comparators[0].value, str):
+                repl = [st.value.value for st in n.body if isinstance(st, ast.Assign) and isinstance(st.value, ast.Constant) and isinstance(st.value.value, str)]
+                handled[n.test.comparators[0].value] = repl[0] if repl else None
+        for n in g.walk():
+            if isinstance(n, ast.Dict):
+                for k_, v_ in zip(n.keys, n.values):
+                    if isinstance(k_, ast.Constant) and isinstance(k_.value, str) and isinstance(v_, ast.Constant):
+                        handled[k_.value] = v_.value
+    if len(handled) < 5:
+        raise AnalysisError(f'R15.6: only {len(handled)} character escapes found in _str_escape (7 confirmed)')
+    oknul = handled.get('\x00') in ('\\x00', '\\0', '\\000')
+    chk.ob('R15.6', '_pyval_repr._str_escape :: NUL is written as an escape before it reaches docutils', oknul,
+           f"'\\x00' -> {handled.get(chr(0))!r}" if oknul else
+           "a NUL inside a str value is handed to docutils raw; Text.astext() removes it: the default `'\\x00'` is displayed as `''`, `'a\\x00b'` as `'ab'` "
+           '(bytes values are not affected, repr() escapes them)', se.loc)
+    # and every escape it writes reads back as the character it replaces
+    wrong = {k: v for k, v in handled.items() if v is not None and _reads_back(v) != k}
+    chk.ob('R15.6', '_pyval_repr._str_escape :: every escape reads back as the character it replaces', not wrong,
+           ', '.join(f'{k!r}->{v}' for k, v in sorted(handled.items()) if v is not None)[:150] if not wrong else
+           f'{wrong}: the displayed text denotes another character', se.loc)
+
+    # _colorize_str always wraps the escaped text in single quotes: both escapers must escape a single quote.  _bytes_escape takes
+    # repr(b) without its quotes - but repr() switches to double quotes (and leaves ' unescaped) when the value contains ' and no "
+    be = repo.func('pydoctor.epydoc.markup._pyval_repr._bytes_escape')
+    from_repr = any(isinstance(n, ast.Call) and call_name(n) == 'repr' for n in be.walk())
+    esc_quote = any(isinstance(n, ast.Call) and call_name(n) == 'replace' and n.args and const_str(n.args[0]) == "'" and
+                    len(n.args) > 1 and const_str(n.args[1]) == "\\'" for n in be.walk())
+    okq = (not from_repr) or esc_quote
+    chk.ob('R15.6', "_pyval_repr._bytes_escape :: a single quote is escaped whatever quotes repr() chose", okq and (handled.get("'") == "\\'"),
+           "repr-derived text with ' escaped; _str_escape maps ' to \\'" if okq else
+           "the text between repr()'s own quotes is reused inside single quotes: for b\"it's\" repr() uses double quotes and leaves the ' bare, the value is "
+           "displayed as b'it's' - not the same expression, not even valid Python", be.loc)
+
     # ------------------------------------------------------------------ R15.7 string arguments of Literal[...] stay strings
     # unstring_annotation turns 'X' into X everywhere except inside Literal[...]: there a string IS the value.  Literal is recognised
     # by its last component, whatever the qualifier (typing.Literal, typing_extensions.Literal, t.Literal)
@@ -360,6 +400,15 @@ def run(repo: Repo, chk: Check, thorough: bool = False) -> None:
            f'Literal is only recognised under `{restricted[0] if restricted else "?"}`: for other spellings (typing_extensions.Literal, t.Literal) the string '
            "arguments are parsed as code, `Literal['a']` is displayed as `Literal[a]`", vs.loc)
     chk.require('R15.7', 1)
+
+
+def _reads_back(esc: str) -> Optional[str]:
+    """The character a backslash escape denotes inside a single-quoted Python literal (the checker's own evaluation of the table entry)."""
+    try:
+        v = ast.literal_eval("'" + esc + "'")
+    except Exception:
+        return None
+    return v if isinstance(v, str) else None
 
 
 def check_control_escape(repo: Repo, chk: Check, rule: str) -> None:
